@@ -2224,3 +2224,160 @@ func apiEOFWrappedFaults(rep *Report) {
 		}
 	}
 }
+
+// ---- feature combinations ----
+
+// tapping does not change the stream, whatever options and base path the context carries; the paths a tap sees under
+// a base path are the paths seen without it, prefixed (the unmp_shift / taps_extend_root theorems on the code)
+func apiTapWithOptions(repM, repU *Report, r *rand.Rand, t reflect.Type, v reflect.Value, desc string) {
+	if usesEmbeddedOrRecursive(t) || hasBadMapKey(v) || hasTiedKeys(v) {
+		return
+	}
+	opts := sb.Ctx{SkipEmptyStructFields: r.Intn(2) == 0, IgnoreFuncs: r.Intn(3) == 0}
+	base := sb.Path{"root", 3}
+	plainCtx := opts
+	plainCtx.Marshal = sb.MarshalValue
+	want, e0 := collectN(sb.MarshalCtx(plainCtx, v.Interface()), 200000)
+	var p0, p1 []string
+	got0, e1 := collectN(sb.TapMarshal(opts, v.Interface(), func(c sb.Ctx, _ reflect.Value) { p0 = append(p0, c.Path.String()) }), 200000)
+	withBase := opts
+	withBase.Path = append(sb.Path{}, base...)
+	got1, e2 := collectN(sb.TapMarshal(withBase, v.Interface(), func(c sb.Ctx, _ reflect.Value) { p1 = append(p1, c.Path.String()) }), 200000)
+	repM.Evaluations += 3
+	repM.count("api:tap-with-options")
+	d := fmt.Sprintf("options skipEmpty=%v ignoreFuncs=%v: %s", opts.SkipEmptyStructFields, opts.IgnoreFuncs, desc)
+	if e0 != nil || e1 != nil || e2 != nil {
+		if (e0 == nil) != (e1 == nil) || (e0 == nil) != (e2 == nil) {
+			repM.violate("C17", "tap-changes-stream", fmt.Sprintf("MarshalCtx: %v, TapMarshal: %v, TapMarshal under a base path: %v", e0, e1, e2), d)
+		}
+		return
+	}
+	if !tokensExactEq(want, got0) || !tokensExactEq(want, got1) {
+		repM.violate("C17", "tap-changes-stream", fmt.Sprintf("MarshalCtx gives [%s], TapMarshal [%s], TapMarshal under a base path [%s]", truncate(descTokens(want), 200), truncate(descTokens(got0), 200), truncate(descTokens(got1), 200)), d)
+		repM.violate("C08", "tap-changes-stream", "a tapped marshal yields a different stream than an untapped one under the same options", d)
+		return
+	}
+	ok := len(p0) == len(p1)
+	for i := 0; ok && i < len(p0); i++ {
+		if p1[i] != base.String()+p0[i] {
+			ok = false
+		}
+	}
+	if !ok {
+		repM.violate("C17", "marshal-tap-path", fmt.Sprintf("paths under the base path %s are not the paths without it, prefixed: %v vs %v", base.String(), truncate(fmt.Sprint(p1), 300), truncate(fmt.Sprint(p0), 300)), d)
+	}
+	// the unmarshal side: strict / default, with and without a base path, against the untapped run
+	ts := want
+	if opts.SkipEmptyStructFields || opts.IgnoreFuncs || len(ts) == 0 || len(ts) > 300 {
+		return
+	}
+	strict := r.Intn(2) == 0
+	uctx := sb.Ctx{DisallowUnknownStructFields: strict}
+	plainU := uctx
+	plainU.Unmarshal = sb.UnmarshalValue
+	a := reflect.New(t)
+	ea := guard(func() error { return copyBudget(tokensFrom(ts), sb.UnmarshalValue(plainU, a, nil)) })
+	var q0, q1 []string
+	b0 := reflect.New(t)
+	eb0 := guard(func() error {
+		return copyBudget(tokensFrom(ts), sb.TapUnmarshal(uctx, b0.Interface(), func(c sb.Ctx, _ sb.Token, _ reflect.Value) { q0 = append(q0, c.Path.String()) }))
+	})
+	ub := uctx
+	ub.Path = append(sb.Path{}, base...)
+	b1 := reflect.New(t)
+	eb1 := guard(func() error {
+		return copyBudget(tokensFrom(ts), sb.TapUnmarshal(ub, b1.Interface(), func(c sb.Ctx, _ sb.Token, _ reflect.Value) { q1 = append(q1, c.Path.String()) }))
+	})
+	repU.Evaluations += 3
+	if classOf(ea) != classOf(eb0) || classOf(ea) != classOf(eb1) || (ea == nil && (!selfEqualOrEquiv(a.Elem(), b0.Elem()) || !selfEqualOrEquiv(a.Elem(), b1.Elem()))) {
+		repU.violate("C05", "tap-changes-outcome", fmt.Sprintf("UnmarshalValue (strict=%v): %v; TapUnmarshal: %v; TapUnmarshal under a base path: %v", strict, ea, eb0, eb1), d)
+		repU.violate("C17", "tap-changes-outcome", fmt.Sprintf("UnmarshalValue (strict=%v): %v; TapUnmarshal: %v; TapUnmarshal under a base path: %v", strict, ea, eb0, eb1), d)
+		return
+	}
+	ok = len(q0) == len(q1)
+	for i := 0; ok && i < len(q0); i++ {
+		if q1[i] != base.String()+q0[i] {
+			ok = false
+		}
+	}
+	if !ok {
+		repU.violate("C17", "unmarshal-tap-path", fmt.Sprintf("paths under the base path %s are not the paths without it, prefixed: %v vs %v", base.String(), truncate(fmt.Sprint(q1), 300), truncate(fmt.Sprint(q0), 300)), d)
+	}
+}
+
+// every producer keeps reporting the end once it has ended; several values through one Encode sink by Sink.Marshal
+func apiEndedStreamsAndSinkMarshal(rep *Report, r *rand.Rand) {
+	v := struct {
+		A int
+		B []string
+		C map[string]int
+	}{3, []string{"x", "y"}, map[string]int{"k": 1}}
+	ts, _ := marshalTokens(v, nil)
+	enc := runEncode(ts, 0, 0).bytes
+	tr, _ := sb.TreeFromStream(tokensFrom(ts))
+	prods := map[string]func() sb.Stream{
+		"Marshal":          func() sb.Stream { return sb.Marshal(v) },
+		"Tokens.Iter":      func() sb.Stream { return tokensFrom(ts) },
+		"Decode":           func() sb.Stream { return sb.Decode(bytes.NewReader(enc)) },
+		"DecodeForCompare": func() sb.Stream { return sb.DecodeForCompare(bytes.NewReader(enc)) },
+		"DecodeJson":       func() sb.Stream { return sb.DecodeJson(strings.NewReader(`{"A":3,"B":["x"]}`), nil) },
+		"Tree.Iter":        func() sb.Stream { return tr.Iter() },
+		"Tee":              func() sb.Stream { return sb.Tee(tokensFrom(ts), sb.Discard) },
+		"ConcatStreams":    func() sb.Stream { return sb.ConcatStreams(tokensFrom(ts[:2]), tokensFrom(ts[2:])) },
+		"FilterProc":       func() sb.Stream { return sb.FilterProc(tokensFrom(ts), func(*sb.Token) bool { return true }) },
+		"Deref":            func() sb.Stream { return sb.Deref(tokensFrom(ts), func([]byte) (sb.Stream, error) { return nil, nil }) },
+	}
+	for name, mk := range prods {
+		s := mk()
+		first, err := collect(s)
+		extra := 0
+		var e2 error
+		for i := 0; i < 3 && e2 == nil; i++ {
+			var t sb.Token
+			e2 = guard(func() error { return s.Next(&t) })
+			if t.Valid() {
+				extra++
+			}
+		}
+		rep.Evaluations++
+		rep.count("api:ended-streams")
+		if err != nil || e2 != nil || extra != 0 {
+			rep.violate("C13", "combinator-not-transparent", fmt.Sprintf("%s: after the end of the stream (%d tokens, %v) three more pulls gave %d tokens and %v", name, len(first), err, extra, e2), "pulling an ended stream: "+name)
+			rep.violate("C14", "delivery", fmt.Sprintf("%s: after the end of the stream (%d tokens, %v) three more pulls gave %d tokens and %v", name, len(first), err, extra, e2), "pulling an ended stream: "+name)
+		}
+	}
+	// Sink.Marshal chains
+	for fl := range writerFlavours {
+		w, cw := mkWriter(fl, 0)
+		vals := []any{1, "two", []int{3, 4}, map[string]bool{"k": true}, v, nil, 5.5}
+		var want []byte
+		sink := sb.Encode(w)
+		var err error
+		for _, x := range vals {
+			xs, _ := marshalTokens(x, nil)
+			want = append(want, runEncode(xs, 0, 0).bytes...)
+			if sink, err = sink.Marshal(x); err != nil {
+				break
+			}
+		}
+		rep.Evaluations++
+		if err != nil || !bytes.Equal(cw.buf.Bytes(), want) {
+			what := fmt.Sprintf("Encode(w).Marshal(v1).Marshal(v2)... over %q wrote %d bytes (%v), the values' encodings have %d", writerFlavours[fl], cw.buf.Len(), err, len(want))
+			rep.violate("C03", "encode-holds-back-bytes", what, "Sink.Marshal chain")
+			rep.violate("C02", "encode-holds-back-bytes", what, "Sink.Marshal chain")
+			rep.violate("C14", "delivery", what, "Sink.Marshal chain")
+		}
+		// and read back value by value from one decoder
+		dec := sb.Decode(bytes.NewReader(cw.buf.Bytes()))
+		for i, x := range vals {
+			var toks sb.Tokens
+			e := guard(func() error { return sb.Copy(dec, sb.CollectValueTokens(&toks)) })
+			xs, _ := marshalTokens(x, nil)
+			if e != nil || !tokensExactEq(toks, xs) {
+				rep.violate("C02", "roundtrip", fmt.Sprintf("value %d of a Sink.Marshal chain read back with CollectValueTokens: [%s] (%v), expected [%s]", i, descTokens(toks), e, descTokens(xs)), "Sink.Marshal chain")
+				rep.violate("C14", "collect-value", fmt.Sprintf("value %d of a Sink.Marshal chain read back with CollectValueTokens: [%s] (%v), expected [%s]", i, descTokens(toks), e, descTokens(xs)), "Sink.Marshal chain")
+				break
+			}
+		}
+	}
+}
